@@ -3,6 +3,7 @@ from .common import *
 from . import procs, c02 as C2, lockstep
 from .c03 import sub_value
 from ..contracts import flux as CF, thermo, process as CP
+from ..symex import explore_thunk
 
 ID = "C06"
 FRAME_SENSITIVE = True        # the statement relates several calls / call histories: a certain write to state that outlives a call is a violation even where the engine cannot follow its effect
@@ -156,6 +157,45 @@ def obligations(cx):
                 if not iso: same('feed_temperature', "relabelled run: same feed temperature at step k+1")
                 ia = a.init('feed_composition')[0].f['p']; ib = subst(b.init('feed_composition')[0].f['p'], cpl)
                 cx.ob(tag + ".init", hy, eq(ib, 1 - ia), function='Pervaporation.' + f, statement="relabelled run starts at 1 - x0")
+    # ------------------------------------------------------------------ diffusion curve built from fluxes: the inversion exchanges the permeances
+    # (ideal_diffusion_curve = element-wise solver calls (C08) + this constructor; the solver swap lemma covers the fluxes, this block the permeances
+    #  and hence the selectivity the curve derives from them)
+    PI = 'DiffusionCurve.__attrs_post_init__'
+    cx.functions[PI] = dict(span=src.span(src.find(PI)), how="body executed symbolically on the original and on the relabelled mixture")
+    n = var('n', 'I'); j = var('jj', 'I')
+    ctrd = {'get_partial_pressures': CF.gpp_contract, '__class_invariants__': CP.CLASS_INVARIANTS}
+    for mode in C2.MODES:
+        Tp, pp = C2.mode_args(mode)
+        ma = W.mixture(src); mb = W.mixture(src, swapped=True)
+        fca = Seq(n, lambda i: Obj('Composition', dict(p=app('xf', lift(i)), type='weight'), owner='external'), owner='external', tag=('xf', 'a'))
+        fcb = Seq(n, lambda i: Obj('Composition', dict(p=1 - app('xf', lift(i)), type='weight'), owner='external'), owner='external', tag=('xf', 'b'))
+        fla = Seq(n, lambda i: (app('J1', lift(i)), app('J2', lift(i))), owner='external', tag=('J', 'a'))
+        flb = Seq(n, lambda i: (app('J2', lift(i)), app('J1', lift(i))), owner='external', tag=('J', 'b'))
+        based = [n >= 1, C2.Tt > 0, C2.TP > 0, C2.PP >= 0] + W.mixture_pre()
+        hypj = [j >= 0, j < n, app('xf', j) >= 0, app('xf', j) <= 1]
+        def build(mix, fc, fl):
+            return lambda ex: ex.construct('DiffusionCurve', [], dict(mixture=mix, membrane_name='m', feed_temperature=C2.Tt, feed_compositions=fc, partial_fluxes=fl,
+                                                                      permeate_temperature=Tp, permeate_pressure=pp, permeances=None))
+        def element(r):
+            v = r.value.f['permeances']
+            if not isinstance(v, Seq): raise Unsupported("curve permeances are not built element-wise")
+            return returns(explore_thunk(r.ex, lambda: r.ex.seq_get(v, j), list(r.pc) + hypj))
+        ras = returns(cx.explore(build(ma, fca, fla), contracts=ctrd, pre=based)); rbs = returns(cx.explore(build(mb, fcb, flb), contracts=ctrd, pre=based))
+        tag = "curve-from-fluxes.%s" % mode
+        cx.ob(tag + ".paths", [], blit(len(ras) >= 1 and len(rbs) >= 1), kind='paths', function=PI)
+        LA, LB = flatten(ma), flatten(mb)
+        lems = [swap_lemma('pp1', 'pp2', LA, LB, gpp_premise), swap_lemma('pp2', 'pp1', LA, LB, gpp_premise)]
+        for ai, ra_ in enumerate(ras):
+            for bi, rb_ in enumerate(rbs):
+                for qa_i, qa in enumerate(element(ra_)):
+                    for qb_i, qb in enumerate(element(rb_)):
+                        ka, kb = qa.value, qb.value
+                        cx.ob("%s.permeances-exchanged.%d-%d-%d-%d" % (tag, ai, bi, qa_i, qb_i), qa.pc + qb.pc,
+                              band(eq(kb[0].f['value'], ka[1].f['value']), eq(kb[1].f['value'], ka[0].f['value']), blit(kb[0].f['units'] == ka[1].f['units'] and kb[1].f['units'] == ka[0].f['units'])),
+                              lemmas=lems, function=PI,
+                              statement="a curve built from the exchanged fluxes on the relabelled mixture reports the exchanged permeances (so its selectivity inverts), in every permeate mode")
+                        if ai + bi + qa_i + qb_i == 0:
+                            cx.must_fail(tag + ".permeances-not-exchanged", qa.pc + qb.pc, band(eq(kb[0].f['value'], ka[0].f['value']), eq(kb[1].f['value'], ka[1].f['value'])))
     # ------------------------------------------------------------------ derived metrics invert
     mixa = W.mixture(src); mixb = W.mixture(src, swapped=True)
     pva = C2.pv_obj(src, mixa, experiments=Opaque('experiments')); pvb = C2.pv_obj(src, mixb, experiments=Opaque('experiments'))
@@ -182,7 +222,7 @@ def obligations(cx):
         r2 = only_return(cx.explore(call(src, name, [], dict(temperature=Tt, first_component=c2, second_component=c1, calculation_type=ct), self_obj=mem), contracts={'Membrane.get_permeance': gpc}, pre=base), name)
         cx.ob("metric.ideal-selectivity.%s.inverts" % ct, r1.pc + r2.pc, eq(r1.value * r2.value, 1), function=name, statement="ideal selectivity inverts when the components are exchanged")
     cx.assume_note("solver and process swap lemmas use get_partial_pressures / calculate_partial_fluxes by contract; their own swap lemmas (proved above from the bodies) are applied by rewriting once the argument relation is discharged")
-    cx.assume_note("ideal diffusion curves are element-wise calls of calculate_partial_fluxes (C08), so their symmetry is the solver swap lemma")
+    cx.assume_note("ideal diffusion curves are element-wise calls of calculate_partial_fluxes (C08), so the symmetry of their fluxes is the solver swap lemma; the symmetry of the permeances the curve derives is proved on DiffusionCurve.__attrs_post_init__ (curve-from-fluxes.*)")
     cx.no_hidden_state(function=None)
 
 
